@@ -107,7 +107,7 @@ def run_model(runner, cfg, tier, name="mcstack", depth=4):
         fh.write(json.dumps(cfg.record()) + "\n")
     env = {"FRAMES": os.path.join(workdir, "frames.ndjson"), "COOKIES": os.path.join(workdir, "cookies.ndjson"),
            "MCCFG": os.path.join(workdir, "mccfg.ndjson"), "MCDEPTH": str(depth), "JAVA_TOOL_OPTIONS": "-Xss256m"}
-    rc, out = tv.run_tlc(workdir, "MCStack.tla", "MCStack.cfg", env, workers=6, xmx="6g", timeout=1500)
+    rc, out = tv.run_tlc(workdir, "MCStack.tla", "MCStack.cfg", env, workers=6, xmx="6g", timeout=1500 if depth <= 3 else 5400)
     with open(os.path.join(workdir, "mcstack.log"), "w") as fh:
         fh.write(out)
     m = re.search(r"(\d+) states generated, (\d+) distinct states found", out)
